@@ -1501,14 +1501,21 @@ class Controller:
         See Bluetooth spec Vol 4, Part E - 7.1.6 Disconnect Command
         '''
         handle = command.connection_handle
+        iso_link = self.find_iso_link_by_handle(handle)
         if not (
             self.find_connection_by_handle(handle)
             or self.find_classic_sco_link_by_handle(handle)
-            or self.find_iso_link_by_handle(handle)
+            or (iso_link and iso_link.acl_connection)
         ):
             # No such connection, there will be no Disconnection Complete event
+            # (a CIS that is configured but not established is not a connection either)
             self._send_hci_command_status(
-                hci.HCI_ErrorCode.UNKNOWN_CONNECTION_IDENTIFIER_ERROR, command.op_code
+                (
+                    hci.HCI_ErrorCode.COMMAND_DISALLOWED_ERROR
+                    if iso_link
+                    else hci.HCI_ErrorCode.UNKNOWN_CONNECTION_IDENTIFIER_ERROR
+                ),
+                command.op_code,
             )
             return None
 
